@@ -167,6 +167,15 @@ PROPS = {
                    'Coq model and with the Rust-API run; return codes and the last-error string are checked after every call; unwinding out of an entry point is detected. Memory safety (leaks, double free, use after free) is outside any Gallina model: '
                    'a sample of the C-driven cases (50 quick / 400 thorough) runs under valgrind memcheck (invalid accesses, double frees, definite leaks).',
         level_note='Trusted as C01 plus harness/src/capi.rs (a Rust program calling the rlib\'s extern "C" functions exactly as the header describes, not a C compiler build of lol_html.h) and the translator\'s entry-point inventory.'),
+    'C03': dict(coq=['props/C03.vo'], families=[('c03', 3000, 60000), ('l1', 300, 6000)], projections=['full'], oracle=oracle_c03, classify=classify_c03,
+        technique='Coq proofs about the ambiguity guard and the simulator tables (regenerated from the source) against WHATWG lists written from the standard; extraction-based correspondence run; '
+                  'independent WHATWG reference tokenizer (tools/whatwg_ref.py) as oracle for the captured token stream; strict / non-strict pair runs',
+        level_text='Theorems C03_tables_are_the_whatwg_lists, C03_tag_constants_are_name_hashes, C03_strict_fails_only_when_ambiguous, C03_ambiguity_is_refused_in_{select,template_in_select,frameset}, '
+                   'C03_strict_and_non_strict_feedback_agree_on_{start,end}_tags. Partial: "the token stream is the WHATWG tokenizer\'s" is not a theorem (no formal WHATWG tokenizer + tree builder); it is decided by comparing every token '
+                   '(names, attributes, self-closing flag, comment text, doctype fields, text ranges) of successful strict runs with capture-everything policy against an independent reference tokenizer written from the standard and driven by the '
+                   'tree-construction rules that matter on the claimed domain (HTML tag soup without svg/math; well-nested foreign islands with integration points and CDATA), for random chunkings; whole-run equality of a successful strict run '
+                   'and the non-strict run is decided on pairs of runs. Known finding IntegrationPointNameReuse.',
+        level_note='Trusted as C01 plus spec/Whatwg.v and tools/whatwg_ref.py as renderings of the standard.'),
     #'C01': dict(coq=['props/C01.vo'], families=[('l1', 1500, 40000)], projections=['out_bytes'], oracle=oracle_c01),
     'C12': dict(coq=['props/C12.vo'], families=[('l1', 800, 20000), ('l1fail', 500, 10000), ('l2fail', 500, 10000), ('l2edit', 500, 10000)], projections=['sink_protocol'], oracle=oracle_c12,
         technique='Coq proof: generic frame theorem over the executable model + invariant over call histories; extraction-based correspondence run',
